@@ -194,3 +194,12 @@ func namesEmpty(c *PikeConfig) bool {
 	}
 	return e
 }
+
+// C17 (round trip, structural part only): the YAML library is outside the claim, but which fields it
+// may see is pike's code.  Every config field that the rest of pike reads when a configuration is
+// applied is saved under a yaml key of its own (computed from the SSA and the struct tags of the
+// current tree by the engine).
+func Harness_C17_saved_fields() {
+	verifAssert("C17.every-applied-config-field-is-saved-under-its-own-key", verifConfigFieldsNotPersisted() == 0)
+	verifReach("C17.saved-fields.end")
+}
